@@ -60,6 +60,10 @@ register(PropertySpec(
              "(shared with C19) one attribute expression used as operand and as condition in the same query"),
         Rule("DECL-FILTER", _lazy("predform", "rule_decl_filter"), 5,
              "(shared with C13) the type filter of a supplied domain is lazy (an eagerly built empty list counts as no domain: the registry) and uses the class being constructed"),
+        Rule("INSERT-RETRIEVABLE", _lazy("cacheidx", "rule_coverage_only_if_stored"), 1,
+             "with an empty key list (a comparison between two literals) insert() records nothing as covered"),
+        Rule("BOUND-AGAIN-TRUTH", _lazy("values", "rule_bound_again_truth"), 2,
+             "an expression that finds itself bound already (a condition object used twice) sets its truth flag from the bound value before handing the binding on"),
     ],
     explanation="Decides the clause 'the condition vocabulary denotes the ordinary Python operator': the node each "
                 "public comparison/membership entry constructs (arguments mapped to dataclass fields through the MRO "
@@ -101,6 +105,8 @@ register(PropertySpec(
              "for_all / flatten / concatenate / not_ return, on every path, the node of their name built from their arguments themselves"),
         Rule("COVERAGE-SUBSUMPTION", _lazy("cacheidx", "rule_coverage_subsumption"), 3,
              "(shared with C20) result caches are on by default: a coverage test that over-approximates loses rows on re-evaluation of any query"),
+        Rule("BOUND-AGAIN-TRUTH", _lazy("values", "rule_bound_again_truth"), 2,
+             "an expression that finds itself bound already (a condition object used twice) sets its truth flag from the bound value before handing the binding on"),
     ],
     explanation="Negation is a rewrite at construction time, so it is a function on syntax and is decided from the "
                 "source: the inverse-operator table is extracted by abstract evaluation of the setter's CFG (match / if "
@@ -222,6 +228,8 @@ register(PropertySpec(
              "(shared with C20) asking whether a binding is covered does not mark it covered (a sub-query evaluated alone would hide its false rows from a later enclosing query)"),
         Rule("RULE-ON-ENTER", _lazy("ruletree", "rule_rule_on_enter"), 2,
              "a query is flagged as a rule both when it is written inside a rule block and when a rule block is opened on it"),
+        Rule("SHARED-TAIL", _lazy("lazy", "rule_shared_tail"), 1,
+             "an iteration over a lazily consumed domain is handed what other live iterations pulled from the shared source"),
     ],
     explanation="History independence is absence of residue on the shared expression nodes. Decided: where residue is "
                 "written (discovered mechanically from dataclass fields and mutation sites reachable from evaluation "
@@ -432,6 +440,8 @@ register(PropertySpec(
              "every insert with index=True walks to the leaf and stores the output (no early return for a binding seen before)"),
         Rule("WILDCARD-DISTINCT", _lazy("extra", "rule_wildcard_distinct"), 1,
              "the wildcard sentinel, which equals everything, hashes by identity so that no stored key value shares its dict slot"),
+        Rule("INSERT-RETRIEVABLE", _lazy("cacheidx", "rule_coverage_only_if_stored"), 1,
+             "with an empty key list (a comparison between two literals) insert() records nothing as covered"),
     ],
     explanation="Decides 'clearing empties it' (the set of fields written by insert is contained in the set reset by "
                 "clear, computed from effects with alias tracking) and one necessary condition of 'each entry paired "
@@ -479,6 +489,8 @@ register(PropertySpec(
              "an operand cache is keyed by the variables of its operand and stores the rows of its operand"),
         Rule("KEY-FILTER-KEEPS", _lazy("binding", "rule_key_filter_keeps"), 4,
              "filters that compute the variables identifying a row keep plain variables and one-to-many mappings"),
+        Rule("INSERT-RETRIEVABLE", _lazy("cacheidx", "rule_coverage_only_if_stored"), 1,
+             "with an empty key list (a comparison between two literals) insert() records nothing as covered"),
     ],
     explanation="Decides that the runtime switch governs reads and writes consistently: the asymmetric state (reads "
                 "unguarded, writes guarded) changes results because an empty lookup marks everything covered. Not "
@@ -657,6 +669,8 @@ register(PropertySpec(
              "a conjunction reports its own truth to its parent as unknown when all that is known is that one operand is true"),
         Rule("COVERAGE-SUBSUMPTION", _lazy("cacheidx", "rule_coverage_subsumption"), 3,
              "a stored binding covers a lookup exactly when it is contained in it: per-key test evaluated for same / other / missing"),
+        Rule("SHARED-TAIL", _lazy("lazy", "rule_shared_tail"), 1,
+             "an iteration over a lazily consumed domain is handed what other live iterations pulled from the shared source"),
     ],
     explanation="An implicit join is a join only if every operator threads the binding it received to its operands and "
                 "keeps everything its operands bound. Both are provenance facts on the evaluation call sites and the "
@@ -733,6 +747,8 @@ register(PropertySpec(
              "(shared with C04) that reset reaches every node of the tree"),
         Rule("CLEAR-COMPLETE", _lazy("cacheidx", "rule_clear_complete"), 4,
              "(shared with C20) clearing an index (after an abandoned evaluation; a class's registry store) empties every store and withdraws the coverage marks"),
+        Rule("SHARED-TAIL", _lazy("lazy", "rule_shared_tail"), 1,
+             "an iteration over a lazily consumed domain is handed what other live iterations pulled from the shared source"),
     ],
     explanation="Laziness is preserved iff nothing on the path from the user's domain to the user's next() materialises a "
                 "stream. That is a may-materialise taint analysis over every function that handles evaluation streams or "
@@ -781,6 +797,8 @@ register(PropertySpec(
              "a symbolic method call applies the method with all the positional and keyword arguments it was built with"),
         Rule("ROW-FRESH", _lazy("extra", "rule_row_fresh"), 1,
              "(shared with C02) incl. the exception for Union.evaluate_right, which stands only while or_ never builds a Union"),
+        Rule("SHARED-TAIL", _lazy("lazy", "rule_shared_tail"), 1,
+             "an iteration over a lazily consumed domain is handed what other live iterations pulled from the shared source"),
     ],
     explanation="All clauses are weak but necessary: arguments evaluated under the current binding, one construction "
                 "per combination, no retrieval instead of construction for inferred variables, existing objects passed "
@@ -820,6 +838,8 @@ register(PropertySpec(
              "(shared with C02) swapping the operands of and_: the left rows are keyed by what the right side tests"),
         Rule("DEDUP-PARENT", _lazy("binding", "rule_dedup_parent"), 5,
              "(shared with C02)"),
+        Rule("INSERT-RETRIEVABLE", _lazy("cacheidx", "rule_coverage_only_if_stored"), 1,
+             "with an empty key list (a comparison between two literals) insert() records nothing as covered"),
     ],
     explanation="Two of the six listed rewrites are decided: mirrored comparisons and contains/in_, by the OPDEN "
                 "denotation rule (C01). Commutativity/associativity of and/or, declaration/selection order and domain "
